@@ -2,6 +2,7 @@ import QuillModel.Extracted.Backend
 import QuillModel.Props.C16
 import QuillModel.Props.C20
 import QuillModel.Props.C07Drain
+import QuillModel.Props.C17
 /-!
 Side-conditions of the C16 / C17 / C20 / C07-drain theorems, re-proved for the facts extracted from the current
 headers (`tools/extractors/backend.py`). If an edit to the headers changes one of the constructs the model
@@ -96,6 +97,26 @@ theorem C20_early_return_extracted (s0 : BSt) (h0 : CtxFresh s0) (ops : List Op)
   apply C20_early_return_iff s0 h0 ops
   rw [hb]
   exact Nat.lt_of_lt_of_le hn (Nat.pow_le_pow_right (by decide) invalid_counter_wide)
+
+/-! ### C17 -/
+
+/-- the constructs `cleanupLoggers`, `applyFront (.removeBlocking …)` and `afterEnq` mirror are in place:
+    `LoggerManager::cleanup_invalidated_loggers` erases an invalid logger only in the else-branch of
+    `!check_queues_empty()`, re-evaluated for every invalid logger; that check is
+    `_check_frontend_queues_and_cached_transit_events_empty` (all queues and transit buffers); the removal flag is
+    stored after the erase and after the sink pruning; `remove_logger_blocking` enqueues its request before it
+    invalidates the logger and waits for the flag afterwards -/
+theorem c17_structure :
+    Extracted.eraseGuardedByEmptyCheck = true ∧ Extracted.checksQueuesPerLogger = true ∧
+    Extracted.emptyCheckIsAllQueues = true ∧ Extracted.removalFlagAfterErase = true ∧
+    Extracted.removalRequestBeforeInvalidate = true := by decide
+
+/-- instance of the main C17 theorem (no side-condition depends on an extracted value beyond `c17_structure`) -/
+theorem C17_erased_logger_has_no_record_extracted (s0 : BSt) (h0 : LoggerFresh s0) (ops : List Op) :
+    ∀ i, i < (runOps s0 ops).ths.length → ∀ st,
+      (st ∈ ((runOps s0 ops).th i).qStmts ∨ st ∈ ((runOps s0 ops).th i).buf) →
+      ((runOps s0 ops).lgOf st.lg).erased = false :=
+  (C17_erased_logger_has_no_record s0 h0 ops).1
 
 /-! ### C07 (drain part) -/
 
